@@ -486,4 +486,3 @@ func (p *Prog) helperLockEffect(g *ssa.Function, call *ssa.Call, cur Held, depth
 	}
 	return back, true
 }
-
